@@ -80,6 +80,7 @@ RULES: Dict[str, Dict[str, Any]] = {
     PJ + "numpy/searchsorted.py": dict(spec=Spec("second", {}), dom="none", param="-", operands="table+queries"),
     # @onnx_function primitives: the original callable is evaluated per example under jax.vmap (C10 anchor `FunctionPlugin._batching_rule`)
     "jax2onnx/plugins/plugin_system.py": dict(spec=Spec("elementwise", {}, const={"_opaque_callee": ("original_fn",)}), dom="none", param="-", operands="two-any", func="FunctionPlugin._batching_rule"),
+    PJ + "nn/dot_product_attention.py": dict(spec=Spec("attention", {"has_bias": "has_bias", "has_mask": "has_mask"}, const={"_stretch_names": {41: "n0"}}), dom="none", param="-", operands="attention"),
     PJ + "numpy/linspace.py": dict(spec=Spec("linspace", {"axis": "axis"}), dom="axis_out", param="axis", operands="linspace"),
 }
 
@@ -222,6 +223,18 @@ def _cases(entry: Dict[str, Any], fi: FuncInfo) -> Iterable[Tuple[List[Optional[
             ops = [([L, ("i0",)], bds)]
         elif kind_ops == "table+queries":
             ops = [([("k",), L], [[None, b] for b in range(r + 1)])]
+        elif kind_ops == "attention":
+            if r != 1:
+                continue
+            ops = []
+            for lead in ((), ("n0",)):
+                q_, k_ = lead + ("T", "N", "H"), lead + ("S", "N", "H")
+                rq = len(q_)
+                qkv_bds = [[b, b, b] for b in (0, 1, rq)]
+                ops.append(([q_, k_, k_], qkv_bds))
+                for side in (("T", "S"), ("N", "T", "S")) + ((lead + ("N", "T", "S"),) if lead else ()):
+                    sb = [0, len(side), None]
+                    ops.append(([q_, k_, k_, side], [[b, b, b, s] for b in (0, rq) for s in sb]))
         elif kind_ops == "contract":
             if r != 1:
                 continue
@@ -293,6 +306,8 @@ def _cases(entry: Dict[str, Any], fi: FuncInfo) -> Iterable[Tuple[List[Optional[
                             p[param] = v
                         if k is not None:
                             p["keepdims"] = k
+                        if kind_ops == "attention":
+                            p["has_bias"] = len(labels) == 4
                         yield labels, bds, p, cls_of(v)
 
 
@@ -616,3 +631,52 @@ def run_generic_batchers(res: Results, idx: Index, tier: str) -> None:
             else:
                 res.unresolved("R-C10f", site, key, f"{style}; {why}{extra}", owner)
     res.analysed["position_independent_batchers"] = n
+
+
+# ---------------------------------------------------------------------------------------------- R-C10g
+def run_param_fallbacks(res: Results, idx: Index) -> None:
+    """A transformation rule receives the primitive's parameters as they were bound.  `v = float(p) if isinstance(p, (int,
+    float)) else <default>` silently replaces a parameter of another numeric type (np.float32 is not a Python float) by
+    the default: the exported derivative uses another hyper-parameter than the primal function.  In plugin functions that
+    read a parameter from a params mapping, an isinstance-guarded conditional whose other branch is a numeric constant is
+    a violation; raising, or converting unconditionally, is fine."""
+    res.rule("R-C10g", "transformation rules never substitute a constant for a bound parameter whose type they do not recognise", floor=1)
+    n = 0
+    hits = 0
+    for m in idx.product_modules():
+        if ".plugins." not in m.name:
+            continue
+        for fi in m.funcs.values():
+            a = fi.node.args  # type: ignore[attr-defined]
+            if a.kwarg is None and not any(x.arg == "params" for x in a.args + a.kwonlyargs):
+                continue
+            du = defuse(fi.node)
+            from_params = {nm for nm, ds in du.defs.items() for d in ds if d.value is not None and isinstance(d.value, (ast.Call, ast.Subscript))
+                           and any(isinstance(x, ast.Name) and x.id in ((a.kwarg.arg if a.kwarg else ""), "params") for x in ast.walk(d.value))}
+            if not from_params:
+                continue
+            n += 1
+            for x in walk_no_nested(fi.node):
+                test = other = None
+                if isinstance(x, ast.IfExp):
+                    test, other, chosen = x.test, x.orelse, x.body
+                if test is None:
+                    continue
+                iso = [c for c in ast.walk(test) if isinstance(c, ast.Call) and (call_name(c) or "") == "isinstance" and c.args and isinstance(c.args[0], ast.Name) and c.args[0].id in from_params]
+                if not iso:
+                    continue
+                hits += 1
+                key = f"{m.rel}::{fi.qualname}::param-fallback::{iso[0].args[0].id}"
+                site = f"{m.rel}:{x.lineno}"
+                if isinstance(other, ast.Constant) and isinstance(other.value, (int, float)) and not isinstance(other.value, bool):
+                    res.violation("R-C10g", site, key, f"`{src(x, 80)}`: a bound parameter whose type is not in the isinstance list (e.g. np.float32) is silently replaced by {other.value!r}; "
+                                  "the rule then differentiates / batches another function than the one that was traced", fi.qualname)
+                else:
+                    res.ok("R-C10g", site, key, f"`{src(x, 60)}` does not fall back to a constant", fi.qualname)
+    if hits == 0:
+        # nothing of that shape in the tree: keep the rule alive with the scan count and a positive control
+        res.ok("R-C10g", "jax2onnx/plugins:1", "param-fallback::none", f"{n} parameter-reading rule functions scanned; none guards a parameter by isinstance with a constant fallback", "<scan>")
+    res.analysed["param_reading_rule_functions"] = n
+    ctl = ast.parse("def r(primals, tangents, **params):\n    p = params.get('alpha', 1.0)\n    a = float(p) if isinstance(p, (int, float)) else 1.0\n    return a\n").body[0]
+    fired = any(isinstance(x, ast.IfExp) and isinstance(x.orelse, ast.Constant) for x in ast.walk(ctl))
+    res.control("R-C10g", "isinstance-guarded constant fallback on a params-derived name is recognised", fired, "synthetic rule")
